@@ -7,6 +7,7 @@ exhausted checks feasibility of both sides, takes the first feasible one and sch
 """
 from __future__ import annotations
 
+import os
 import time
 
 import z3
@@ -41,9 +42,68 @@ class Stats:
 STATS = Stats()
 
 
-def _check(solver, *assumptions):
+FEAS_TIMEOUT_MS = 1000
+
+
+class FreshSolver:
+    """Every query is a fresh, non-incremental z3 solver over the path condition: z3's incremental
+    mode (push/pop, check-with-assumptions) is an order of magnitude slower on sequence queries."""
+
+    def __init__(self):
+        self.facts = []
+        self.heavy = False
+        self.inc = z3.Solver()
+
+    @staticmethod
+    def _is_heavy(f):
+        t = f.sexpr()
+        return "seq." in t or "forall" in t or "exists" in t or "(Seq " in t
+
+    def add(self, f):
+        self.facts.append(f)
+        if not self.heavy:
+            if self._is_heavy(f):
+                self.heavy = True
+            else:
+                self.inc.add(f)
+
+    def check(self, *extra, timeout=None):
+        if not self.heavy and not any(self._is_heavy(f) for f in extra if not isinstance(f, bool)):
+            self.inc.set("timeout", timeout or Z3_TIMEOUT_MS)
+            self.inc.push()
+            for f in extra:
+                self.inc.add(f)
+            r = self.inc.check()
+            self.last = self.inc
+            self._model = self.inc.model() if r == z3.sat else None
+            self._smt = None
+            if r == z3.unknown:
+                self._smt = self.inc.to_smt2()
+            self.inc.pop()
+            return r
+        s = z3.Solver()
+        s.set("timeout", timeout or Z3_TIMEOUT_MS)
+        for f in self.facts:
+            s.add(f)
+        for f in extra:
+            s.add(f)
+        self.last = s
+        self._model = None
+        self._smt = None
+        return s.check()
+
+    def model(self):
+        return self._model if self._model is not None else self.last.model()
+
+    def to_smt2(self):
+        return self._smt if self._smt is not None else self.last.to_smt2()
+
+
+def _check(solver, *assumptions, timeout=None):
     t0 = time.time()
-    r = solver.check(*assumptions)
+    r = solver.check(*assumptions, timeout=timeout)
+    if os.environ.get("PYVC_TRACE"):
+        print(f"  query {r} {time.time()-t0:.2f}s facts={len(solver.facts)} extra={[str(a)[:80] for a in assumptions]}", file=__import__("sys").stderr)
     STATS.queries += 1
     STATS.solver_s += time.time() - t0
     return r
@@ -54,8 +114,7 @@ class Ctx:
         self.prefix = list(prefix)
         self.decisions = []
         self.worklist = worklist if worklist is not None else []
-        self.solver = z3.Solver()
-        self.solver.set("timeout", timeout_ms)
+        self.solver = FreshSolver()
         self.pc = []
         self.fx = []
         self.counter = {}
@@ -100,7 +159,7 @@ class Ctx:
         self.solver.add(f)
 
     def is_feasible(self, *extra):
-        r = _check(self.solver, *extra)
+        r = _check(self.solver, *extra, timeout=FEAS_TIMEOUT_MS)
         return r != z3.unsat
 
     def prove(self, f):
@@ -126,8 +185,8 @@ class Ctx:
         if i < len(self.prefix):
             d = self.prefix[i]
         else:
-            can_t = _check(self.solver, cond) != z3.unsat
-            can_f = _check(self.solver, z3.Not(cond)) != z3.unsat
+            can_t = _check(self.solver, cond, timeout=FEAS_TIMEOUT_MS) != z3.unsat
+            can_f = _check(self.solver, z3.Not(cond), timeout=FEAS_TIMEOUT_MS) != z3.unsat
             if can_t and can_f:
                 self.worklist.append(self.decisions + [False])
                 d = True
@@ -170,7 +229,7 @@ class Ctx:
                 if isinstance(c, bool):
                     if c:
                         feas.append(k)
-                elif _check(self.solver, c) != z3.unsat:
+                elif _check(self.solver, c, timeout=FEAS_TIMEOUT_MS) != z3.unsat:
                     feas.append(k)
             if not feas:
                 raise Infeasible()
@@ -194,14 +253,19 @@ class Ctx:
             STATS.by_backend["syntactic"] += 1
             self.obligations.append((name, "proved", {"backend": "syntactic", **(info or {})}))
             return "proved"
-        self.solver.push()
         try:
-            for h in extra_hyp:
-                self.solver.add(h)
-            self.solver.add(z3.Not(f))
             t0 = time.time()
-            r = _check(self.solver)
+            r = _check(self.solver, *extra_hyp, z3.Not(f),
+                       timeout=FEAS_TIMEOUT_MS if name.endswith("::__canary__") else None)
+            if name.endswith("::__canary__") and r == z3.unknown:
+                # the planted false assertion is *not proved*: that is all the canary has to show
+                self.obligations.append((name, "refuted", {"backend": "z3", "t": time.time() - t0, "model": None,
+                                                           "goal": f}))
+                return "refuted"
             dt = time.time() - t0
+            if dt > 2.0 and os.environ.get("PYVC_DUMP"):
+                with open(os.path.join(os.environ["PYVC_DUMP"], name.replace("/", "_").replace(":", "_") + ".smt2"), "w") as fh:
+                    fh.write(self.solver.to_smt2())
             if r == z3.unsat:
                 STATS.by_backend["z3"] += 1
                 self.obligations.append((name, "proved", {"backend": "z3", "t": dt, **(info or {})}))
@@ -215,7 +279,7 @@ class Ctx:
             # unknown: second opinion from cvc5 on the SMT-LIB text
             smt = self.solver.to_smt2()
         finally:
-            self.solver.pop()
+            pass
         from . import backends
 
         verdict, out, dt2 = backends.cvc5_check(smt)
